@@ -30,10 +30,10 @@ Batch ==
          v3 == ~rf.oos /\ hasBad /\ E.nerr = 0
          v4 == ~rf.oos /\ E.closed
      IN /\ Flag(v1, "executed_statements_differ", [client |-> E.c, items |-> E.items, expected |-> rf.ex, executed |-> obs,
-                                                   cache |-> E.cache])
-        /\ Flag(v2, "spurious_error", [client |-> E.c, items |-> E.items, errors |-> E.errors, cache |-> E.cache])
-        /\ Flag(v3, "missing_error", [client |-> E.c, items |-> E.items])
-        /\ Flag(v4, "client_disconnected", [client |-> E.c, items |-> E.items, errors |-> E.errors])
+                                                   cache |-> E.cache, step |-> E.i])
+        /\ Flag(v2, "spurious_error", [client |-> E.c, items |-> E.items, errors |-> E.errors, cache |-> E.cache, step |-> E.i])
+        /\ Flag(v3, "missing_error", [client |-> E.c, items |-> E.items, step |-> E.i])
+        /\ Flag(v4, "client_disconnected", [client |-> E.c, items |-> E.items, errors |-> E.errors, step |-> E.i])
         /\ seen' = seen \cup K({<<v1, "executed_statements_differ">>, <<v2, "spurious_error">>, <<v3, "missing_error">>,
                                 <<v4, "client_disconnected">>})
         /\ dref' = [dref EXCEPT ![E.c] = IF E.closed THEN [n \in Names |-> NONE] ELSE IF rf.oos THEN @ ELSE rf.m]
@@ -42,7 +42,7 @@ Batch ==
 \* a simple-protocol PREPARE by a client (the pooler then cleans the connection with DEALLOCATE ALL): nothing changes for
 \* the protocol-level statements the client holds - a direct connection would never have lost them
 SqlPrep == /\ E.ev = "sqlprep"
-           /\ Flag(~E.ok, "spurious_error", [client |-> E.c, items |-> <<>>, errors |-> E.errors, cache |-> E.cache])
+           /\ Flag(~E.ok, "spurious_error", [client |-> E.c, items |-> <<>>, errors |-> E.errors, cache |-> E.cache, step |-> E.i])
            /\ seen' = seen \cup K({<<~E.ok, "spurious_error">>})
            /\ UNCHANGED <<vars, sc, off>>
 Step == /\ l <= Len(Rec) /\ l' = l + 1 /\ (Reset \/ Batch \/ SqlPrep)
